@@ -81,6 +81,9 @@ type RCase struct {
 	Invalid   string    `json:"invalid,omitempty"` // nildb niltx emptyquery queryerr
 	// Root: call the root package's wrapper goframe.FromSQL* instead of dataframe.FromSQL* (not visible to the model)
 	Root bool `json:"root,omitempty"`
+	// NilCtx: the Context entry points are given a nil context, which they document as "use the background
+	// context" (not visible to the model: the result must be the same)
+	NilCtx bool `json:"nilctx,omitempty"`
 	// oracles
 	Tp        []TpEntry   `json:"tp"`
 	Unix      []UnixEntry `json:"unix"`
@@ -443,6 +446,10 @@ func RunR(r *RCase) {
 		}()
 		var res *dataframe.DataFrame
 		var err error
+		var bg context.Context = context.Background()
+		if r.NilCtx {
+			bg = nil
+		}
 		switch r.Entry {
 		case "FromSQL":
 			h := db
@@ -460,9 +467,9 @@ func RunR(r *RCase) {
 				h = nil
 			}
 			if r.Root {
-				res, err = goframe.FromSQLContext(context.Background(), h, query, []any{}, r.options()...)
+				res, err = goframe.FromSQLContext(bg, h, query, []any{}, r.options()...)
 			} else {
-				res, err = dataframe.FromSQLContext(context.Background(), h, query, []any{}, r.options()...)
+				res, err = dataframe.FromSQLContext(bg, h, query, []any{}, r.options()...)
 			}
 		default:
 			var tx *sql.Tx
@@ -480,9 +487,9 @@ func RunR(r *RCase) {
 			case r.Entry == "FromSQLTx":
 				res, err = dataframe.FromSQLTx(tx, query, nil, r.options()...)
 			case r.Root:
-				res, err = goframe.FromSQLTxContext(context.Background(), tx, query, nil, r.options()...)
+				res, err = goframe.FromSQLTxContext(bg, tx, query, nil, r.options()...)
 			default:
-				res, err = dataframe.FromSQLTxContext(context.Background(), tx, query, nil, r.options()...)
+				res, err = dataframe.FromSQLTxContext(bg, tx, query, nil, r.options()...)
 			}
 		}
 		if err != nil {
